@@ -31,7 +31,8 @@ def is_sym(a):
 class Interp:
     """mode 'real': floats are z3 Reals, ints z3 Ints.  mode 'fp32': floats Float32."""
 
-    def __init__(self, mode="real", poison_ok=False, chol="explicit", memo=None, tag="", finite_uf=False):
+    def __init__(self, mode="real", poison_ok=False, chol="explicit", memo=None, tag="", finite_uf=False, ext_real=False):
+        self.ext_real = ext_real      # real mode: +-inf / nan constants take part in arithmetic by the IEEE rules (symbolic terms are finite reals)
         self.mode = mode
         self.finite_uf = finite_uf    # real mode: `is_finite(x)` is an arbitrary predicate of x (error paths for non-finite values become reachable)
         self.poison_ok = poison_ok
@@ -107,7 +108,7 @@ class Interp:
             vals = [it[i] for it in its]
             if any(isinstance(v, Poison) for v in vals):
                 o[i] = Poison("propagated"); continue
-            if any(isinstance(v, NonFinite) for v in vals) and getattr(f, "__name__", "") not in ("sel", "fmax", "fmin") and not getattr(self, "_nf_ok", False):
+            if any(isinstance(v, NonFinite) for v in vals) and getattr(f, "__name__", "") not in ("sel", "fmax", "fmin") and not getattr(self, "_nf_ok", False) and not self.ext_real:
                 raise Unsupported(f"arithmetic on non-finite constant in real mode ({getattr(f, '__name__', f)})")
             o[i] = f(*vals)
         return out
@@ -121,17 +122,74 @@ class Interp:
             return x, y
         return x, y
 
+    # extended reals (ext_real): a NonFinite operand meets a finite real term
+    def _sign(self, t):
+        """sign of a finite operand if it is decided syntactically, else None"""
+        if isinstance(t, (int, float, np.floating, np.integer)):
+            return (t > 0) - (t < 0)
+        t = z3.simplify(t)
+        if z3.is_rational_value(t) or z3.is_int_value(t):
+            fr = t.as_fraction() if z3.is_rational_value(t) else Fraction(t.as_long())
+            return (fr > 0) - (fr < 0)
+        return None
+
+    def _nf(self, op, x, y=None):
+        nan, inf = float("nan"), float("inf")
+        xv = x.x if isinstance(x, NonFinite) else None
+        yv = y.x if isinstance(y, NonFinite) else None
+        if (xv is not None and math.isnan(xv)) or (yv is not None and math.isnan(yv)):
+            return z3.BoolVal(op == "ne") if op in ("lt", "le", "gt", "ge", "eq", "ne") else NonFinite(nan)
+        if op == "neg":
+            return NonFinite(-xv)
+        if op == "exp":
+            return self.fconst(0.0) if xv < 0 else NonFinite(inf)
+        if op == "log":
+            return NonFinite(inf) if xv > 0 else NonFinite(nan)
+        if op == "sub":
+            return self._nf("add", x, self.neg(y) if yv is None else NonFinite(-yv))
+        if op == "add":
+            if xv is not None and yv is not None:
+                return NonFinite(xv) if xv == yv else NonFinite(nan)
+            return NonFinite(xv if xv is not None else yv)
+        if op in ("mul", "div"):
+            if xv is not None and yv is not None:
+                return NonFinite(xv * yv) if op == "mul" else NonFinite(nan)
+            if op == "div" and yv is not None:
+                return self.fconst(0.0)
+            other = y if xv is not None else x
+            sg = self._sign(other)
+            if sg is None:
+                raise Unsupported(f"extended reals: {op} of an infinite constant with a term of undecided sign")
+            v = xv if xv is not None else yv
+            if sg == 0:
+                return NonFinite(nan) if op == "mul" else NonFinite(v)     # inf * 0 = nan ; inf / (+0) = inf
+            return NonFinite(v * sg)
+        if op in ("lt", "le", "gt", "ge", "eq", "ne"):
+            a = xv if xv is not None else 0.0     # a finite operand compares like 0 against an infinite one
+            b = yv if yv is not None else 0.0
+            return z3.BoolVal({"lt": a < b, "le": a <= b, "gt": a > b, "ge": a >= b, "eq": a == b, "ne": a != b}[op])
+        raise Unsupported(f"extended reals: {op}")
+
+    def _isnf(self, *xs):
+        return self.ext_real and any(isinstance(x, NonFinite) for x in xs)
+
     def add(self, x, y):
+        if self._isnf(x, y):
+            return self._nf("add", x, y)
         if self.mode == "fp32" and z3.is_fp(x):
             return z3.fpAdd(z3.RNE(), x, y)
         return x + y
 
     def sub(self, x, y):
+        if self._isnf(x, y):
+            return self._nf("sub", x, y)
         if self.mode == "fp32" and z3.is_fp(x):
             return z3.fpSub(z3.RNE(), x, y)
         return x - y
 
     def mul(self, x, y):
+        if self._isnf(x, y):
+            return self._nf("mul", x, y)
         if self.mode == "fp32" and z3.is_fp(x):
             return z3.fpMul(z3.RNE(), x, y)
         if z3.is_bool(x):
@@ -139,6 +197,8 @@ class Interp:
         return x * y
 
     def div(self, x, y):
+        if self._isnf(x, y):
+            return self._nf("div", x, y)
         if self.mode == "fp32" and z3.is_fp(x):
             return z3.fpDiv(z3.RNE(), x, y)
         if z3.is_int(x) and z3.is_int(y):
@@ -151,16 +211,24 @@ class Interp:
         return x / y
 
     def neg(self, x):
+        if self._isnf(x):
+            return self._nf("neg", x)
         if self.mode == "fp32" and z3.is_fp(x):
             return z3.fpNeg(x)
         return -x
 
     def exp(self, x):
+        if self._isnf(x):
+            return self._nf("exp", x)
         t = self.fn("exp", self.F, self.F)(x)
         self.exp_terms.append((x, t))
         return t
 
     def log(self, x):
+        if self._isnf(x):
+            return self._nf("log", x)
+        if self.ext_real and self.mode == "real" and z3.is_expr(x) and self._sign(x) == 0:
+            return NonFinite(float("-inf"))
         t = self.fn("log", self.F, self.F)(x)
         self.log_terms.append((x, t))
         return t
@@ -174,6 +242,8 @@ class Interp:
         return s
 
     def cmp(self, op, x, y):
+        if self._isnf(x, y):
+            return self._nf(op, x, y)
         if self.mode == "real" and z3.is_expr(x) and z3.is_expr(y) and x.eq(y):
             return z3.BoolVal(op in ("le", "ge", "eq"))
         if self.mode == "fp32" and z3.is_fp(x):
